@@ -1,10 +1,10 @@
 import Haiway.Model.Timeout
 import Driver.Common
-/-! `hwmodel timeout`: one call through the timeout wrapper per line.
+/-! `hwmodel timeout`: one call (or several overlapping calls, see `runCase`) through the timeout wrapper per line.
 
 case:  `d=<n> k=<val|exc|base|self> ig=<0|1> D=<n> c=<n|->`
         d  virtual instant at which the function's own delay is over (0 = it never suspends)
-        k  how it ends, ig = swallows the first cancellation, D = the timeout,
+        k  how it ends (`fval`/`fexc`/`fbase`: falsy value / falsy exception objects), ig = swallows the first cancellation, D = the timeout,
         c  instant at which `cancel()` is called on the caller (`-` = never); `<t>+<k>` = k single
            loop iterations into instant t (between the callbacks that instant's events trigger)
 out:   `out=<res|exc|base|timeout|cancelled|hang>@<t|-> at=<fn status when the caller got its outcome>
@@ -108,6 +108,9 @@ def explore : Nat → D → Nat → List Ext → List (Nat × List Ext) → List
 
 def parseKind : String → Option Kind
   | "val" => some .val | "exc" => some .exc | "base" => some .baseExc | "self" => some .selfCancel
+  -- values are parametric in the model: a falsy result / a falsy exception object (`__bool__` False)
+  -- is just a result / an exception of that class
+  | "fval" => some .val | "fexc" => some .exc | "fbase" => some .baseExc
   | _ => none
 
 def field (toks : List String) (key : String) : Option String :=
@@ -120,7 +123,7 @@ def insertEv (t : Nat) (e : Ext) : List (Nat × List Ext) → List (Nat × List 
     else if t = u then (u, es ++ [e]) :: rest
     else (u, es) :: insertEv t e rest
 
-def runCase (line : String) : String :=
+def runSingle (line : String) : String :=
   let toks := Driver.words line
   match field toks "d" >>= String.toNat?, field toks "k" >>= parseKind, field toks "ig",
         field toks "D" >>= String.toNat?, field toks "c" with
@@ -151,5 +154,26 @@ def runCase (line : String) : String :=
       | many => "ALT " ++ " || ".intercalate many
     | _, _ => "bad-case"
   | _, _, _, _, _ => "bad-case"
+
+/-- `multi D=<n> / s=<start> d= k= ig= c= / s=… …`: several overlapping calls through ONE wrapper.
+The wrapper keeps no state between calls (every call has its own future, task, timer and
+callbacks), so the system is the product of independent copies of the single-call LTS
+(`Haiway.C16.calls_independent`): each call is predicted on its own, instants relative to its start. -/
+def runCase (line : String) : String :=
+  match Driver.words line with
+  | "multi" :: _ =>
+    match line.splitOn " / " with
+    | hd :: calls =>
+      match field (Driver.words hd) "D" with
+      | some dl =>
+        if calls.isEmpty then "bad-case" else
+        " / ".intercalate (calls.map (fun c =>
+          let toks := Driver.words c
+          match field toks "s" >>= String.toNat?, field toks "c" with
+          | some _, some cf => if cf.contains '+' then "bad-case" else runSingle s!"{c} D={dl}"
+          | _, _ => "bad-case"))
+      | none => "bad-case"
+    | [] => "bad-case"
+  | _ => runSingle line
 
 end Driver.Timeout
